@@ -9,6 +9,11 @@ Theorems about `Dmn.Recog` (model of the plane-level half of `/repo/recognizer`:
 `plane.rs`, `recognizer.rs`, `builder.rs`, `rect.rs`).  The scanner (`canvas.rs`) is not
 modelled; the correspondence `harness/src/c19.rs` ties `planeOf` / `draw` to it.  That is the
 stated gap of this property (level: partial).
+
+The theorems are stated at full strength for the code after the repairs of the findings
+F19a–F19e (hit policy / rule number placement of rules-as-columns tables, blank allowed-values
+cells, checked indexing): the former `…_partial` / `…_counterexample` theorems are gone, their
+witnesses are kept as regression `example`s.
 -/
 
 namespace Dmn.Recog
@@ -28,7 +33,8 @@ def sampleTable (o : Orientation) : TableSpec :=
 
 def sampleDecor (split : Bool) : Decor :=
   { hp := " C+ ".toList, ruleNos := [" 1 ".toList, "2".toList], split := split,
-    hpBlank := "  ".toList, annBlanks := ["   ".toList], merge := false }
+    hpBlank := "  ".toList, annBlanks := ["   ".toList], merge := false,
+    inBlanks := ["   ".toList, " ".toList], outBlanks := ["  ".toList, "  ".toList] }
 
 /-- the simplest table: one input, one output, one rule -/
 def tinyTable (o : Orientation) (expr : String) : TableSpec :=
@@ -46,7 +52,7 @@ example (split : Bool) (o : Orientation) : (sampleDecor split).Ok (sampleTable o
   ⟨show hitPolicyOfText " C+ ".toList = some (.collect .sum) from by decide, rfl,
     fun i h => (by decide : ∀ i (h : i < 2),
       parseUsize (trim ([" 1 ".toList, "2".toList][i])) = some (i + 1)) i h,
-    fun _ => rfl⟩
+    fun _ => rfl, by cases split <;> decide, by cases split <;> decide⟩
 
 /-! ## Round trip -/
 
@@ -72,60 +78,40 @@ example : (sampleTable .ruleAsRow).wf = true ∧
     recognizePlane (planeOf (sampleDecor false) (sampleTable .ruleAsRow)) = ok (sampleTable .ruleAsRow) := by
   decide +kernel
 
-/-
-FULL STATEMENT (not provable of the current code, see findings F19a, F19b):
-
-  theorem recognize_plane_roundtrip (d : Decor) (t : TableSpec) (hwf : t.wf = true) (hd : d.Ok t) :
-      recognizePlane (planeOf d t) = ok t
-
-For a rules-as-columns drawing the code looks for the hit policy marker in the top-left cell
-first (`plane.rs:447`) — which is the first input expression — and for rule numbers below the
-double line in the first column first (`plane.rs:470`) — which holds the output label or the
-first output component name.  A table whose first input expression reads `U`, `A`, `P`, `F`,
-`R`, `O`, `C`, `C+`, `C#`, `C<`, `C>` (F19a) or whose first output lane reads as a number
-(F19b) is rejected (`recognize_plane_roundtrip_cols_counterexample_*`).
--/
-
-/-- Rules as columns (the pivoted orientation): the same round trip, for tables whose first
-input expression is not a hit policy marker and whose first output lane is not a number. -/
-theorem recognize_plane_roundtrip_cols_partial (d : Decor) (t : TableSpec) (hwf : t.wf = true)
-    (hd : d.Ok t) (ho : t.orientation = .ruleAsColumn)
-    (hexpr : hitPolicyOfText (t.exprs.headD []) = none)
-    (hlane : parseUsize (trim (firstOutputLane t)) = none) :
+/-- Rules as columns (the pivoted orientation): the same round trip.  (Before the repairs of
+F19a / F19b this needed the first input expression not to read as a hit policy marker and the
+first output lane not to read as a number.) -/
+theorem recognize_plane_roundtrip_cols (d : Decor) (t : TableSpec) (hwf : t.wf = true)
+    (hd : d.Ok t) (ho : t.orientation = .ruleAsColumn) :
     recognizePlane (planeOf d t) = ok t := by
   have hw := (TableSpec.wf_iff t).mp hwf
   unfold planeOf
   rw [ho]
-  exact recognizePlane_cols (idsCols d t) d t t.infoName hw (idsCols_ok d t) hd ho rfl hexpr hlane
+  exact recognizePlane_cols (idsCols d t) d t t.infoName hw (idsCols_ok d t) hd ho rfl
 
 example : (sampleTable .ruleAsColumn).wf = true ∧
-    hitPolicyOfText ((sampleTable .ruleAsColumn).exprs.headD []) = none ∧
-    parseUsize (trim (firstOutputLane (sampleTable .ruleAsColumn))) = none ∧
     recognizePlane (planeOf (sampleDecor true) (sampleTable .ruleAsColumn)) = ok (sampleTable .ruleAsColumn) ∧
     recognizePlane (planeOf (sampleDecor false) (sampleTable .ruleAsColumn)) = ok (sampleTable .ruleAsColumn) := by
   decide +kernel
 
-/-- Both orientations in one statement. -/
-theorem recognize_plane_roundtrip_partial (d : Decor) (t : TableSpec) (hwf : t.wf = true)
-    (hd : d.Ok t)
-    (hcols : t.orientation = .ruleAsColumn →
-      hitPolicyOfText (t.exprs.headD []) = none ∧ parseUsize (trim (firstOutputLane t)) = none) :
+/-- **Round trip.** For every well-formed table — any number of inputs, outputs, annotations
+and rules, every hit policy, both orientations, every combination of information item name,
+allowed values (of any subset of the inputs and outputs), output label, several output
+components, annotation columns, both variants of the header lane — recognising the plane its
+drawing denotes returns exactly the table. -/
+theorem recognize_plane_roundtrip (d : Decor) (t : TableSpec) (hwf : t.wf = true) (hd : d.Ok t) :
     recognizePlane (planeOf d t) = ok t := by
   have hw := (TableSpec.wf_iff t).mp hwf
   cases ho : t.orientation with
   | ruleAsRow => exact recognize_plane_roundtrip_rows d t hwf hd ho
-  | ruleAsColumn =>
-    exact recognize_plane_roundtrip_cols_partial d t hwf hd ho (hcols ho).1 (hcols ho).2
+  | ruleAsColumn => exact recognize_plane_roundtrip_cols d t hwf hd ho
   | crossTable => exact absurd ho hw.orient
 
 /-- Drawings in which equal input entries of consecutive rules are merged into one cell (the
 usual way of drawing DMN tables; the merged cell is one region, read back as the entry of every
 rule it spans), regions numbered in scanning order: the same round trip. -/
-theorem recognize_plane_roundtrip_merged_partial (d : Decor) (t : TableSpec) (hwf : t.wf = true)
-    (hd : d.Ok t)
-    (hcols : t.orientation = .ruleAsColumn →
-      hitPolicyOfText (t.exprs.headD []) = none ∧ parseUsize (trim (firstOutputLane t)) = none) :
-    recognizePlane (planeOfMerged d t) = ok t := by
+theorem recognize_plane_roundtrip_merged (d : Decor) (t : TableSpec) (hwf : t.wf = true)
+    (hd : d.Ok t) : recognizePlane (planeOfMerged d t) = ok t := by
   have hw := (TableSpec.wf_iff t).mp hwf
   unfold planeOfMerged
   cases ho : t.orientation with
@@ -133,7 +119,6 @@ theorem recognize_plane_roundtrip_merged_partial (d : Decor) (t : TableSpec) (hw
     exact recognizePlane_rows (idsOfSheet d t) d t t.infoName hw (idsOfSheet_ok d t hw) hd ho rfl
   | ruleAsColumn =>
     exact recognizePlane_cols (idsOfSheet d t) d t t.infoName hw (idsOfSheet_ok d t hw) hd ho rfl
-      (hcols ho).1 (hcols ho).2
   | crossTable => exact absurd ho hw.orient
 
 /-- non-vacuity: in the sample table with the second rule's first entry equal to the first
@@ -148,29 +133,32 @@ example :
     recognizePlane (planeOfMerged d t) = ok t := by
   decide +kernel
 
-/-- F19a: the simplest rules-as-columns table with an input called `A` is rejected. -/
-theorem recognize_plane_roundtrip_cols_counterexample_marker :
-    (tinyTable .ruleAsColumn " A ").wf = true ∧ tinyDecor.ruleNos.length = 1 ∧
-    recognizePlane (planeOf tinyDecor (tinyTable .ruleAsColumn " A ")) = error .expectedLeftBelow := by
-  decide +kernel
-
-/-- F19b: a rules-as-columns table whose output label reads `2` is rejected. -/
-theorem recognize_plane_roundtrip_cols_counterexample_number :
-    ({ tinyTable .ruleAsColumn " age " with label := some " 2 ".toList } : TableSpec).wf = true ∧
-    recognizePlane (planeOf tinyDecor { tinyTable .ruleAsColumn " age " with label := some " 2 ".toList })
-      = error (.invalidRuleNumber 2) := by
-  decide +kernel
-
-/-- the same tables are recognised when drawn with rules as rows -/
+/-- regression (F19a, F19b): the rules-as-columns table with an input called `A`, and the one
+whose output label reads `2`, are recognised — in either orientation -/
 example :
-    recognizePlane (planeOf tinyDecor (tinyTable .ruleAsRow " A ")) = ok (tinyTable .ruleAsRow " A ") ∧
-    recognizePlane (planeOf tinyDecor (tinyTable .ruleAsColumn " age ")) = ok (tinyTable .ruleAsColumn " age ") := by
+    recognizePlane (planeOf tinyDecor (tinyTable .ruleAsColumn " A ")) = ok (tinyTable .ruleAsColumn " A ") ∧
+    recognizePlane (planeOf tinyDecor { tinyTable .ruleAsColumn " age " with label := some " 2 ".toList })
+      = ok { tinyTable .ruleAsColumn " age " with label := some " 2 ".toList } ∧
+    recognizePlane (planeOf tinyDecor (tinyTable .ruleAsRow " A ")) = ok (tinyTable .ruleAsRow " A ") := by
+  decide +kernel
+
+/-- regression (F19c, F19d): allowed values of the inputs only (the allowed-values cells of
+the outputs are blank), and of one output only, are recognised as drawn -/
+example :
+    let t1 := { sampleTable .ruleAsRow with
+      outputs := [⟨some " o1 ".toList, none⟩, ⟨some " o2 ".toList, none⟩] }
+    let t2 := { sampleTable .ruleAsColumn with
+      inputs := [⟨" a ".toList, none⟩, ⟨" b ".toList, none⟩],
+      outputs := [⟨some " o1 ".toList, none⟩, ⟨some " o2 ".toList, some " 6 ".toList⟩] }
+    t1.wf = true ∧ t2.wf = true ∧
+    recognizePlane (planeOf (sampleDecor false) t1) = ok t1 ∧
+    recognizePlane (planeOf (sampleDecor true) t2) = ok t2 := by
   decide +kernel
 
 /-! ## `pivot` -/
 
 /-- `pivot` is an involution on every rectangular plane with at least one row and one column
-(on other planes it panics or loses cells, see the examples below). -/
+(on other planes it is an error or loses cells, see the examples below). -/
 theorem pivot_involutive (P : Plane) (w : Nat) (hw : 0 < w) (hne : P.rows ≠ [])
     (hrect : ∀ r ∈ P.rows, r.length = w) :
     (P.pivot >>= Plane.pivot) = ok P := by
@@ -183,9 +171,9 @@ example : ∃ P : Plane, P.rows ≠ [] ∧ (∀ r ∈ P.rows, r.length = 3) ∧
     (P.pivot >>= Plane.pivot) = ok P ∧ P.pivot ≠ ok P :=
   ⟨⟨none, [[.region 0 ['a'], .vOut, .region 1 []], [.hOut, .mainX, .hOut]]⟩, by decide⟩
 
-/-- the hypotheses are needed: a plane without rows panics, a ragged plane panics -/
-example : (Plane.mk none []).pivot = .panic .pivotIndex ∧
-    (Plane.mk none [[.vOut, .vOut], [.vOut]]).pivot = .panic .pivotRemove := by decide
+/-- the hypotheses are needed: a plane without rows and a ragged plane are errors -/
+example : (Plane.mk none []).pivot = error .planeIsEmpty ∧
+    (Plane.mk none [[.vOut, .vOut], [.vOut]]).pivot = error .colOutOfRange := by decide
 
 /-- The plane of a rules-as-columns drawing is the pivot of the rules-as-rows body under its
 last row: `remove_last_row` + `pivot` lead to the plane `remove_first_column` leads to. -/
@@ -340,38 +328,13 @@ theorem header_cases_drawn : ∀ c : HeaderCase, ∃ t : TableSpec, t.wf = true 
 
 /-! ## No index panic -/
 
-/-
-FULL STATEMENT (not provable of the current code, see finding F19e):
-
-  theorem plane_no_panic (P : Plane) : (recognizePlane P).isPanic = false
-
-The plane logic indexes rows and columns on the assumption that the plane is rectangular and
-that its first column contains the horizontal double line (`plane.rs:472`, `:478`, `:504`,
-`:335`, `:447`, `:454`; `rect.rs:83`).  The scanner does not guarantee this: when a junction
-on the left border of a drawing reads `└` instead of `├`, the row below it loses its first
-cell, the plane is ragged, and `recognize_horizontal_rule_numbers` / `pivot` run out of their
-index ranges (`plane_no_panic_counterexample`; the two planes are the planes the real scanner
-yields for the drawings `corpus/C19/f19e_*.dtb`, and the real code panics on them).
--/
-
-/-- On every plane of the shape the scanner is meant to produce — at least two rows, all of
-the same non-zero width, a horizontal double line cell in the first column, a vertical double
-line cell in the last row, the annotation crossing to the right of the main crossing — the
-plane logic (orientation, hit policy and rule numbers, pivot, header analysis, size
-validation, table construction) returns a table or an error: every index access is in range.
-The correspondence evaluates `scannerShape` on every plane the real scanner produces. -/
-theorem plane_no_panic_partial (P : Plane) (hs : P.scannerShape = true) :
-    (recognizePlane P).isPanic = false :=
-  (NP_iff_isPanic _).mp (NP_recognizePlane P hs)
-
-/-- non-vacuity: the planes of drawn tables have the scanner's shape (both orientations),
-and so has a plane that is not the plane of any table (recognised as an error) -/
-example : (planeOf (sampleDecor true) (sampleTable .ruleAsRow)).scannerShape = true ∧
-    (planeOf (sampleDecor false) (sampleTable .ruleAsColumn)).scannerShape = true ∧
-    (Plane.mk none [[.region 0 [], .vOut], [.hOut, .mainX], [.region 1 [], .vOut]]).scannerShape = true ∧
-    recognizePlane (Plane.mk none [[.region 0 [], .vOut], [.hOut, .mainX], [.region 1 [], .vOut]])
-      = error .crossTabNotSupported := by
-  decide +kernel
+/-- **No panic.** On every plane whatsoever — rectangular or ragged, with or without double
+lines — the plane logic (orientation, hit policy and rule numbers, pivot, header analysis,
+size validation, table construction) returns a table or an error: every index access is
+checked (`plane.rs`, `rect.rs` after the repair of F19e) or in range (`builder.rs`, by
+`validate_size`). -/
+theorem plane_no_panic (P : Plane) : (recognizePlane P).isPanic = false :=
+  (NP_iff_isPanic _).mp (NP_recognizePlane P)
 
 /-- the plane of `corpus/C19/f19e_left_border_corner_above_double_line.dtb` -/
 def raggedPlaneRows : Plane :=
@@ -389,23 +352,22 @@ def raggedPlaneCols : Plane :=
           [.vOut, .region 4 " 2 ".toList],
           [.region 5 " U   ".toList, .vOut, .region 6 " 1 ".toList]]⟩
 
-/-- F19e: ragged planes make the rule number search and `pivot` run out of range. -/
-theorem plane_no_panic_counterexample :
-    recognizePlane raggedPlaneRows = .panic .horzSkipIndex ∧
-    recognizePlane raggedPlaneCols = .panic .pivotRemove ∧
-    raggedPlaneRows.scannerShape = false ∧ raggedPlaneCols.scannerShape = false := by
-  decide +kernel
-
-/-- each hypothesis of `plane_no_panic_partial` excludes a panic of its own -/
+/-- regression (F19e): the ragged planes of drawings with a damaged border junction, and the
+planes that used to hit the other unchecked accesses, are rejected with an error -/
 example :
-    -- an empty first row: `first().unwrap()` (plane.rs:447)
-    recognizePlane ⟨none, [[]]⟩ = .panic .hpFirstUnwrap ∧
-    -- no vertical double line in the last row (plane.rs:504)
-    recognizePlane ⟨none, [[.hOut], [.region 0 []]]⟩ = .panic .vertSkipIndex ∧
-    -- the annotation crossing left of the main crossing: `Rect::width` underflows (rect.rs:83)
+    recognizePlane raggedPlaneRows = error .colOutOfRange ∧
+    recognizePlane raggedPlaneCols = error .colOutOfRange ∧
+    recognizePlane ⟨none, [[]]⟩ = error .colOutOfRange ∧
+    recognizePlane ⟨none, [[.hOut], [.region 0 []]]⟩ = error .colOutOfRange ∧
     recognizePlane ⟨none, [[.region 0 " U ".toList, .region 1 [], .region 2 [], .region 3 []],
       [.hOut, .horzX, .hOut, .mainX], [.region 4 " 1 ".toList, .region 5 [], .region 6 [], .region 7 []]]⟩
-      = .panic .rectSub := by
+      = error .noOutputClause := by
+  decide +kernel
+
+/-- the planes of drawn tables have the shape the scanner is meant to produce (the
+correspondence evaluates `scannerShape` on every plane the real scanner produces) -/
+example : (planeOf (sampleDecor true) (sampleTable .ruleAsRow)).scannerShape = true ∧
+    (planeOf (sampleDecor false) (sampleTable .ruleAsColumn)).scannerShape = true := by
   decide +kernel
 
 end Dmn.Recog
